@@ -7,6 +7,7 @@ import (
 	"sort"
 	"strings"
 
+	"github.com/dolthub/gozstd"
 	"github.com/golang/snappy"
 
 	"verif/harness/internal/hx"
@@ -480,9 +481,96 @@ func (ck *checker) compare(j *job) {
 		if impl != model {
 			dis(impl+" "+o.Msg, resp, "buildArchiveFooter")
 		}
+		if b.Kind == "arc" {
+			ck.compareArchiveIndex(j, query, dis)
+		}
 		// a footer the model rejects can never be opened
 		if op := opOf(j.res, "open", -1); op != nil && strings.HasPrefix(resp, "err") && op.Class == "ok" {
 			dis("open=ok", resp, "archive opened although the model rejects its footer")
+		}
+	}
+}
+
+// decodeArcEntry: model get entry of the archive index path → the implementation's terms.
+// a | e | p | k<snappy payload> | z<dict span>:<p|e|d<data span>>
+func decodeArcEntry(s string) string {
+	if strings.HasPrefix(s, "z") {
+		parts := strings.SplitN(s[1:], ":", 2)
+		if len(parts) != 2 {
+			return "?" + s
+		}
+		// loadDict: NewDecompBundle(dictBytes) comes before the data span is read
+		raw, err := gozstd.Decompress(nil, hx.Unhex(parts[0]))
+		if err != nil {
+			return "err"
+		}
+		dd, err := gozstd.NewDDict(raw)
+		if err != nil {
+			return "err"
+		}
+		if _, err := gozstd.NewCDict(raw); err != nil {
+			return "err"
+		}
+		switch {
+		case parts[1] == "p":
+			return "panic"
+		case parts[1] == "e":
+			return "err"
+		}
+		d, err := gozstd.DecompressDict(nil, hx.Unhex(parts[1][1:]), dd)
+		if err != nil {
+			return "err"
+		}
+		if d == nil {
+			return "absent" // archiveChunkSource.get: a nil result reads as "not here"
+		}
+		return "ok:" + hx.Hex(d)
+	}
+	return decodeEntry(s)
+}
+
+// compareArchiveIndex: the in-memory archive index path (open, has, get) against the model.
+func (ck *checker) compareArchiveIndex(j *job, query []string, dis func(impl, model, note string)) {
+	resp := ck.m.Ask(fmt.Sprintf("arc %s %s %s", j.b.ID, j.mut.String(), strings.Join(query, ",")))
+	f := map[string]string{}
+	for _, kv := range strings.Fields(resp) {
+		if i := strings.Index(kv, "="); i > 0 {
+			f[kv[:i]] = kv[i+1:]
+		}
+	}
+	op := opOf(j.res, "open", -1)
+	if op == nil {
+		return
+	}
+	if f["open"] != op.Class {
+		dis("open="+op.Class+" "+op.Msg, resp, "archive index load")
+		return
+	}
+	if op.Class != "ok" {
+		return
+	}
+	has := f["has"]
+	for i := range query {
+		o := opOf(j.res, "has", i)
+		want := "?"
+		if i < len(has) {
+			want = map[byte]string{'1': "ok", '0': "absent", 'p': "panic", 'e': "err"}[has[i]]
+		}
+		if o != nil && o.Class != want {
+			dis(fmt.Sprintf("has[%d]=%s %s", i, o.Class, o.Msg), fmt.Sprintf("has[%d]=%s", i, want), "archive has")
+			return
+		}
+	}
+	gets := strings.Split(f["get"], ";")
+	for i := range query {
+		o := opOf(j.res, "get", i)
+		want := "?"
+		if i < len(gets) {
+			want = decodeArcEntry(gets[i])
+		}
+		if o != nil && implEntry(o) != want {
+			dis(fmt.Sprintf("get[%d]=%s %s", i, implEntry(o), o.Msg), fmt.Sprintf("get[%d]=%s", i, want), "archive get")
+			return
 		}
 	}
 }
